@@ -98,7 +98,7 @@ def conc_oracle(h, i, line, impl, orc):
 
 PROPS = {
     "C01": dict(kind="v1hist", quick_n=1500, thorough_n=16000,
-                profile=Profile(p_huge=0.006, p_unloaded=0.15, p_hash_read=0.0, check_all_versions=0.5, iters=0.3, big=0.05, p_load_old=0.12, p_save_existing=0.8),
+                profile=Profile(p_huge=0.006, p_unloaded=0.15, p_hash_read=0.0, check_all_versions=0.5, iters=0.3, big=0.05, p_load_old=0.12, p_save_existing=0.8, ixdump=0.15),
                 title="versioned key-value semantics"),
     "C02": dict(kind="v1hist", quick_n=1500, thorough_n=16000,
                 profile=Profile(p_hash_read=0.9, proofs=0.3, iters=0.2, exports=0.0, check_all_versions=0.4, p_churn=0.15, p_load_old=0.15, p_save_existing=0.8,
@@ -115,7 +115,7 @@ PROPS = {
                 title="fast index coherence"),
     "C09": dict(kind="v1hist", quick_n=1500, thorough_n=24000,
                 profile=Profile(p_huge=0.006, p_loadow=0.3, p_delfrom=0.1, p_rollback=0.3, p_reopen=0.2, check_all_versions=0.5,
-                                p_hash_read=0.5, iters=0.2),
+                                p_hash_read=0.5, iters=0.2, ixdump=0.2),
                 title="rollback erases the future"),
     "C04": dict(kind="v1hist", quick_n=1500, thorough_n=24000,
                 profile=Profile(p_hold=0.3, p_prune=0.6, p_noop_version=0.4, check_all_versions=0.7, proofs=0.2, p_hash_read=0.3,
@@ -137,7 +137,7 @@ PROPS = {
     "C11": dict(kind="v1hist", quick_n=600, thorough_n=12000, gen="c11", oracle=c11_oracle, profile=None,
                 title="balance, rank, read cost"),
     "C12": dict(kind="v1hist", quick_n=1200, thorough_n=24000,
-                profile=Profile(p_hold=0.3, dump=0.7, p_prune=0.5, p_noop_version=0.35, p_loadow=0.12, p_delfrom=0.1, p_reopen=0.2,
+                profile=Profile(p_hold=0.3, dump=0.7, ixdump=0.3, p_prune=0.5, p_noop_version=0.35, p_loadow=0.12, p_delfrom=0.1, p_reopen=0.2,
                                 check_all_versions=0.1, p_hash_read=0.0, reads_per_version=(0, 1),
                                 imm_reads_per_version=(0, 1), meta_per_version=(0, 1), nkeys=5,
                                 thrs=[120, 150, 200, 300, 400, 0], caches=[0, 0, 1, 3, 100], empty_out=0.3),
